@@ -578,10 +578,8 @@ func (d *Directory) handleModify(t TestingT) func(w *gldap.ResponseWriter, r *gl
 				}
 			case gldap.ReplaceAttribute:
 				if foundAttr != nil {
-					// we're updating what the ptr points at, so disable lint of
-					// unused var
-					//nolint:staticcheck
-					foundAttr = gldap.NewEntryAttribute(chg.Modification.Type, chg.Modification.Vals)
+					// we're updating what the ptr points at
+					*foundAttr = *gldap.NewEntryAttribute(chg.Modification.Type, chg.Modification.Vals)
 				}
 			}
 		}
